@@ -78,7 +78,14 @@ def handle (cmd : String) (args : List String) : Option String :=
               | "otlp", "ns" => some ((ms : Int), .absent)      -- time_unix_nano/10^6 put on the event; no `timestamp` key
               | "otlp", "zero" => some (0, .absent)
               | "loki", "ns-str" => some (0, .str (dec (ms * 1000000)) none)
-              | "splunk", "hec-time" => some (0, .absent)       -- nothing reads the envelope's `time`
+              -- Splunk HEC: the envelope's `time` is the handler time (getHecEventTime), a root `timestamp` wins
+              | "splunk", "hec-time" => some (hecEventTime (some (dec (ms / 1000) ++ '.' :: pad3 (ms % 1000))), .absent)
+              | "splunk", "hec-time-str" => some (hecEventTime (some (dec (ms / 1000) ++ '.' :: pad3 (ms % 1000))), .absent)
+              | "splunk", "hec-time-s" => some (hecEventTime (some (dec (ms / 1000))), .absent)
+              | "splunk", "hec-time-ms" => some (hecEventTime (some (dec ms)), .absent)
+              | "splunk", "hec-both" => some (hecEventTime (some (dec (ms / 1000 + 86400))), .num (dec ms))
+              | "splunk", "hec-none" => some (hecEventTime none, .absent)
+              | "splunk", "hec-time-bad" => some (hecEventTime none, .absent)   -- "time":"yesterday": ParseFloat fails
               | "splunk", "ts-ms" => some (0, .num (dec ms))
               | _, _ => none
             match r with
